@@ -45,7 +45,7 @@ theorem ex8_diverges : ∀ F, evalB F ex8R {} = .fuel := by
 /-- non-vacuity, stage 8 (a named literal in expression position whose call loops forever) -/
 example : ∃ bc, compileProgram ex8DivAst = .ok (ex8R, bc) ∧ inFragment8 ex8R = true ∧ (∀ F, Spec.evalB F ex8R {} = .fuel) ∧
     ∀ n, (∃ s', runSteps bc.code n (VM.start {} bc) = .budget s') ∨
-         (∃ n0 s', ∀ k, runSteps bc.code (n0 + k) (VM.start {} bc) = .error .index s') := by
+         HitsLimit bc := by
   have hin : inFragment8 ex8R = true := by decide
   cases hc : compileProgram ex8DivAst with
   | error e =>
